@@ -35,6 +35,17 @@ Match(x, r) == MatchEd(x, r) /\ MatchM(x, r) /\ x.notif = r.notif /\ x.quit = r.
 \* re-synchronise the editor from the log where the specification leaves the result open (file-name completion)
 AdoptEd(x, r) == [x EXCEPT !.text = r.ed.text, !.cursor = r.ed.cursor, !.comps = r.ed.comps, !.cidx = IF r.ed.cidx < 0 THEN 0 ELSE r.ed.cidx]
 
+\* `load PATH` of a file whose text the log carries: the documented effect is parse -> assemble -> load (Mrasm.tla, Asm.tla, Machine!LoadF)
+A == INSTANCE Asm
+RECURSIVE FlatL(_)
+FlatL(qq) == IF qq = <<>> THEN <<>> ELSE Head(qq) \o FlatL(Tail(qq))
+LoadedFrom(x, ftext) ==
+  LET p == A!ParseText(ftext) IN
+  IF p.k # "accept" \/ ~A!Defined(p.ast) THEN [special |-> "unspec"]
+  ELSE LET asm == A!Assemble(p.ast) IN
+       [x EXCEPT !.hist = Append(@, x.text), !.text = <<>>, !.cursor = 0, !.hidx = -1, !.comps = <<>>, !.cidx = 0, !.notif = "none",
+                 !.m = LoadF(x.m, FlatL(asm.lines), asm.ss, asm.ps)]
+
 Init == s = SessionInit /\ l = 1
 Step ==
   /\ l <= N
@@ -46,7 +57,9 @@ Step ==
            \/ /\ [special |-> "files"] \in succ                       \* file-name completion: any candidate list that ends with the typed text
               /\ s' = AdoptEd(s, r) /\ MatchM(s', r) /\ r.notif = "none"
               /\ (r.ed.comps # <<>> => r.ed.comps[Len(r.ed.comps)] = s.text)
-           \/ /\ [special |-> "load"] \in succ                        \* load of a path that cannot be read: notification, machine untouched
+           \/ /\ [special |-> "load"] \in succ /\ "ftext" \in DOMAIN r   \* load of a readable file with a valid program: exactly the documented effect
+              /\ LET y == LoadedFrom(s, r.ftext) IN "special" \notin DOMAIN y /\ Match(y, r) /\ s' = y
+           \/ /\ [special |-> "load"] \in succ /\ "ftext" \notin DOMAIN r  \* load of a path that cannot be read: notification, machine untouched
               /\ r.notif = "other"
               /\ s' = [s EXCEPT !.hist = Append(@, s.text), !.text = <<>>, !.cursor = 0, !.hidx = -1, !.comps = <<>>, !.cidx = 0, !.notif = "other"]
               /\ Match(s', r)
